@@ -194,7 +194,20 @@ theorem C17_late_append_after_unsub (n : Nat) (es₀ es₁ es₂ : List Op)
   simp only [run]
   exact (run_aliveLe .fixed es₂ _).dead (C17_late_append _ hflat j s i hnone hi)
 
+/-- (d') a late addition made WHILE the composite is being torn down — by an entry whose own
+    `unsubscribe()` appends to the same composite — is torn down too: once `m_j.unsubscribe()` has
+    returned, every leaf reachable through the addition is dead, for every continuation. -/
+theorem C17_reentrant_append_torn_down (w : W) (hw : Flat w) (j : Nat) (s : Sub) (i : Nat)
+    (hi : i ∈ reach (unsub (.multi j) w) s) (es : List Op) :
+    (run .fixed w (.unsubReapp j s :: es)).1.alive i = false := by
+  simp only [run, step]
+  exact (run_aliveLe .fixed es _).dead
+    (unsub_kills_flat _ (hw.of_cellLe (unsub_cellLe (.multi j) w)) s i hi)
+
 /-! ### non-vacuity -/
+
+example : (run .fixed init [.append 0 (.leaf 0), .unsubReapp 0 (.leaf 1), .closed (.multi 0), .emit 4]).2 =
+    [.ok, .ok, .closed true, .out [(2, 4)]] := by decide
 
 example : Flat (init 3) := flat_init 3
 
